@@ -247,6 +247,12 @@ def gains_bounded_instance():
             y = y / np.linalg.norm(y, axis=-1, keepdims=True)
         mag = np.exp(rng.uniform(np.log(lo), np.log(hi), size=(F, N, 1)))
         c = mag if real else mag * np.exp(1j * rng.uniform(0, 2 * np.pi, size=(F, N, 1)))
+        if (inp['seed'] // 13) % 3 == 0 and not real and which not in ('cbmm', 'bingham'):
+            # silent points (zero padding, a muted segment, a removed DC bin): exactly zero frames stay zero under every gain, the
+            # other points keep their directions
+            dead = rng.rand(F, N) < 0.12
+            dead[:, :6] = False
+            y = np.where(dead[..., None], 0.0, y)
         emb = rng.normal(size=(F, N, 4))
         ce = np.exp(rng.uniform(np.log(lo), np.log(hi), size=(F, N, 1)))
         init = np.moveaxis(rng.dirichlet(np.ones(K), size=(F, N)), -1, -2).copy()
